@@ -149,9 +149,9 @@ theorem stuck_idle {s : State} (r : Reach s) (h : Stuck s) (i : Nat) (t : Thread
               simp only [Option.map_some, Option.some.injEq, Prod.mk.injEq] at hkj
               exact h.notEnabled htj (by simp [enabledT, hkj.2, h.condFree r])
         · exact h.notRestartPc r htd (Or.inr (Or.inr (Or.inr (Or.inr (Or.inr (Or.inr (Or.inl ⟨_, hpd⟩)))))))
-  | stJoinW w =>
+  | stJoinW w rest =>
     exfalso
-    obtain ⟨pid, pcw, hkw⟩ := r.wi.wk i _ _ w (by simp) hme (by rw [hpc]; rfl)
+    obtain ⟨pid, pcw, hkw⟩ := r.wi.wk i _ _ w (by simp) hme (by rw [hpc]; exact List.mem_cons_self)
     unfold kp at hkw
     cases htw : s.threads[w]? with
     | none => rw [htw] at hkw; cases hkw
